@@ -152,4 +152,90 @@ def reduce_case(case):
         yield c
 
 
-SUBS = [Sub("options", check, strategy=strategy, reduce=reduce_case, examples={"quick": 700, "thorough": 12000})]
+# ---- histories of out-of-band flushes ------------------------------------------------------------------------------
+# A scheduled batch that a sibling flushes out of band (item.value() inside a body) leaves the scheduler with a pass in which
+# it finds nothing to flush.  Programs made only of that pattern, run several times on one scheduler with nothing reset in
+# between, reach option-guarded bookkeeping that ordinary programs (which also flush batches through the scheduler) reset.
+
+def oob_strategy(tier):
+    pat = st.fixed_dictionaries({"kind": st.sampled_from(["a", "b", "c"]), "grab_first": st.booleans(), "normal_before": st.sampled_from([False, False, False, True]),
+                                 "ctx": st.booleans(), "extra_waiters": st.integers(0, 2)})
+    subset = st.lists(st.sampled_from(BOOL_OPTIONS), min_size=1, max_size=5, unique=True)
+    return st.fixed_dictionaries({"pats": st.lists(pat, min_size=1, max_size=3), "repeat": st.integers(1, 5), "subset": subset, "inc": st.sampled_from(INCS),
+                                  "conv": st.sampled_from(["call", "value", "wrapper"])})
+
+
+def oob_program(case):
+    n = [0]
+
+    def nid():
+        n[0] += 1
+        return n[0]
+    body = []
+    for p in case["pats"]:
+        k = p["kind"]
+        if p["normal_before"]:
+            body.append({"op": "yield", "catch": False, "y": ["item", k, 0, "ok", nid()]})
+        members = []
+        for _ in range(1 + p["extra_waiters"]):
+            wait = [{"op": "yield", "catch": False, "y": ["item", k, 0, "ok", nid()]}]
+            if p["ctx"]:
+                wait = [{"op": "with", "ctx": ["rec", nid()], "body": wait}]
+            members.append(["task", {"body": wait, "id": nid(), "via": "return"}])
+        grab = ["task", {"body": [{"op": "itemvalue", "item": ["item", k, 0, "ok", nid()], "catch": False}], "id": nid(), "via": "return"}]
+        members.insert(0 if p["grab_first"] else len(members), grab)
+        body.append({"op": "yield", "catch": False, "y": ["L", members]})
+    return {"conv": case["conv"], "faults": [], "nsv": 2, "prio": {"a": [0], "b": [1], "c": [2]}, "root": {"body": body, "id": nid(), "via": "return"}, "shape": "oob"}
+
+
+def oob_history(prog, names, inc, repeat):
+    opts = dict((o, FLIP[o]) for o in names)
+    opts["SCHEDULER_STATE_DUMP_INTERVAL"] = 0
+    out = []
+    env0 = None
+    for i in range(repeat):
+        env = engine.run_program(copy.deepcopy(prog), reset=(i == 0), options=opts if i == 0 else None, clock=engine.FakeClock(inc))
+        env0 = env0 or env
+        out.append(engine.trace(env))
+    return env0, out
+
+
+def oob_check(case, ctx):
+    prog = oob_program(case)
+    base, t0 = oob_history(prog, [], case["inc"], case["repeat"])
+    viol = []
+    for names in [[o] for o in BOOL_OPTIONS] + [list(BOOL_OPTIONS), list(case["subset"])]:
+        _, t = oob_history(prog, names, case["inc"], case["repeat"])
+        if t != t0:
+            i = [j for j in range(len(t0)) if t[j] != t0[j]][0]
+            diff = [k for k in t0[i] if t0[i][k] != t[i][k]]
+            label = "+".join(names) if len(names) <= 3 else "%d options incl. %s" % (len(names), "+".join(names[:3]))
+            sig = "C20.inert:" + (names[0] if len(names) == 1 else "combination")
+            viol.append((sig, "with %s, run %d of %d of the same program on one scheduler differs from the default-options history in its %s: %r" % (
+                label, i + 1, case["repeat"], "/".join(diff), dict((k, (t[i][k], t0[i][k])) for k in diff[:1]))))
+            break
+    nd = base.ndirect
+    ctx.label("out-of-band-flushes-per-run=%s" % (nd if nd < 3 else ">=3"))
+    ctx.label("runs=%d" % case["repeat"])
+    ctx.label("outcome=" + base.outcome[0])
+    ctx.label(">=3-out-of-band-flushes-in-the-history", nd * case["repeat"] >= 3)
+    ctx.nontrivial(case, nd >= 1 and base.outcome[0] == "ok")
+    return viol
+
+
+def oob_reduce(case):
+    if case["repeat"] > 1:
+        yield dict(case, repeat=case["repeat"] - 1)
+    for i in range(len(case["pats"])):
+        if len(case["pats"]) > 1:
+            yield dict(case, pats=case["pats"][:i] + case["pats"][i + 1:])
+        p = case["pats"][i]
+        for k, v in (("extra_waiters", 0), ("ctx", False), ("normal_before", False), ("grab_first", False)):
+            if p[k] != v:
+                yield dict(case, pats=case["pats"][:i] + [dict(p, **{k: v})] + case["pats"][i + 1:])
+    if len(case["subset"]) > 1:
+        yield dict(case, subset=case["subset"][:1])
+
+
+SUBS = [Sub("options", check, strategy=strategy, reduce=reduce_case, examples={"quick": 700, "thorough": 12000}),
+        Sub("oob-history", oob_check, strategy=oob_strategy, reduce=oob_reduce, examples={"quick": 300, "thorough": 6000})]
